@@ -687,7 +687,120 @@ func (c *Ctx) noteCallWrites(li *loopInfo, call *ast.CallExpr) {
 	if fc != nil && (fc.Pure || len(fc.Modifies) == 0) {
 		return
 	}
+	if fc != nil && c.noteContractWrites(li, call, fn, fc) {
+		return
+	}
 	li.heapFams["*"] = true
+}
+
+// noteContractWrites maps a callee's modifies clauses to heap families when every clause targets a parameter (p,
+// p[a:b], p.f) whose argument type is known; reports false when it cannot.
+func (c *Ctx) noteContractWrites(li *loopInfo, call *ast.CallExpr, fn *types.Func, fc *FuncContract) bool {
+	_, fd, _ := c.prog.lookupFunc(fn)
+	if fd == nil {
+		return false
+	}
+	sig := fn.Type().(*types.Signature)
+	paramType := map[string]types.Type{}
+	k := 0
+	for _, f := range fd.Type.Params.List {
+		for _, n := range f.Names {
+			if k < sig.Params().Len() {
+				paramType[n.Name] = sig.Params().At(k).Type()
+			}
+			k++
+		}
+		if len(f.Names) == 0 {
+			k++
+		}
+	}
+	if fd.Recv != nil && len(fd.Recv.List) > 0 && len(fd.Recv.List[0].Names) > 0 && sig.Recv() != nil {
+		paramType[fd.Recv.List[0].Names[0].Name] = sig.Recv().Type()
+	}
+	fams := map[string]bool{}
+	addType := func(t types.Type) bool {
+		switch u := t.Underlying().(type) {
+		case *types.Slice:
+			var fs [][2]string
+			c.leafFamilies(c.elemPrefix(u.Elem()), u.Elem(), &fs)
+			for _, f := range fs {
+				fams[f[0]] = true
+			}
+			return true
+		}
+		return false
+	}
+	for _, cl := range fc.Modifies {
+		x := cl.Expr
+		if sl, ok := x.(*SSlice); ok {
+			x = sl.X
+		}
+		switch n := x.(type) {
+		case *SIdent:
+			t, ok := paramType[n.Name]
+			if !ok || !validType(t) || !addType(t) {
+				return false
+			}
+		case *SSel:
+			id, ok := n.X.(*SIdent)
+			if !ok {
+				return false
+			}
+			t, ok := paramType[id.Name]
+			if !ok || !validType(t) {
+				return false
+			}
+			pt, isPtr := t.Underlying().(*types.Pointer)
+			if !isPtr {
+				return false
+			}
+			stt, isSt := pt.Elem().Underlying().(*types.Struct)
+			if !isSt {
+				return false
+			}
+			found := false
+			for i := 0; i < stt.NumFields(); i++ {
+				if stt.Field(i).Name() == n.Name {
+					var fs [][2]string
+					c.leafFamilies(c.elemPrefix(pt.Elem())+"."+n.Name, stt.Field(i).Type(), &fs)
+					for _, f := range fs {
+						fams[f[0]] = true
+					}
+					if sl, isSl := stt.Field(i).Type().Underlying().(*types.Slice); isSl {
+						addType(types.NewSlice(sl.Elem()))
+					}
+					found = true
+				}
+			}
+			if !found {
+				// ghost field
+				if nt, ok := pt.Elem().(*types.Named); ok {
+					if td := c.typeDecl(nt); td != nil {
+						for _, g := range td.Ghost {
+							if g.Name == n.Name {
+								var fs [][2]string
+								c.leafFamilies(c.elemPrefix(pt.Elem())+"."+n.Name, c.resolveTypeText(g.Type), &fs)
+								for _, f := range fs {
+									fams[f[0]] = true
+								}
+								found = true
+							}
+						}
+					}
+				}
+			}
+			if !found {
+				return false
+			}
+		default:
+			return false
+		}
+	}
+	for f := range fams {
+		li.heapFams[f] = true
+		li.rootsUnk[f] = true
+	}
+	return true
 }
 
 // havocLoop prepares the state at an arbitrary iteration of a loop: modified variables and heap families are
